@@ -94,7 +94,9 @@ def pipeline(ctx, cases_by=None):
     if cases_by is None:
         cnt = collections.Counter()
         # (1) every behaviour of each focused alphabet up to its depth (Pics_MC.tla: PlanOf), one TLC run
-        allc = ctx.tlc_gen("Pics_MC.tla", gencfg(ctx, "gen_bfs.cfg", BFS_PLANS, "bfs"), "bfs")
+        # (the quick tier's share of the large images rotates with the seed: PlanOf("bulk<k>"))
+        plans = BFS_PLANS + (["bulk%d" % (ctx.seed % 3)] if q else [])
+        allc = ctx.tlc_gen("Pics_MC.tla", gencfg(ctx, "gen_bfs.cfg", plans, "bfs"), "bfs")
         nb = len(allc)
         ctx.exhaustive = True
         # (2) seeded random walks over the wide argument classes
@@ -104,7 +106,7 @@ def pipeline(ctx, cases_by=None):
         allc += sim
         count_ops(cnt, allc)
         judge(ctx, allc, "gen")
-        ctx.extra_cov["bounds"] = {"bfs_plans": BFS_PLANS, "bfs_behaviours": nb, "random_walks": len(sim), "walk_length": d3,
+        ctx.extra_cov["bounds"] = {"bfs_plans": plans, "bfs_behaviours": nb, "random_walks": len(sim), "walk_length": d3,
                                    "variants_per_behaviour": 2,
                                    "exhaustive_over": "operation sequences of the alphabets/argument classes of PlanOf (Pics_MC.tla) "
                                                       "up to their depth for this tier"}
